@@ -703,15 +703,15 @@ def gen_gauss_spec(rng, n, lossy):
     cmds = []
     for i in range(n):
         if rng.random() < 0.85:
-            cmds.append(["Sgate", [round(rng.uniform(0.05, 0.32), 3), round(rng.uniform(-3, 3), 2)], [i], False])
+            cmds.append(["Sgate", [round(rng.uniform(0.05, 0.25), 3), round(rng.uniform(-3, 3), 2)], [i], False])
         if rng.random() < 0.85:
-            cmds.append(["Dgate", [round(rng.uniform(0.05, 0.4), 3), round(rng.uniform(-3, 3), 2)], [i], False])
+            cmds.append(["Dgate", [round(rng.uniform(0.05, 0.35), 3), round(rng.uniform(-3, 3), 2)], [i], False])
     if n >= 2:
         # two-mode gates on ascending pairs only: the Fock backend's handling of descending target pairs is C01's subject
         pairs = [sorted(rng.sample(range(n), 2)) for _ in range(rng.randint(1, n))]
         if rng.random() < 0.4:
             a, b = sorted(rng.sample(range(n), 2))
-            cmds.append(["S2gate", [round(rng.uniform(0.1, 0.3), 3), round(rng.uniform(-3, 3), 2)], [a, b], False])
+            cmds.append(["S2gate", [round(rng.uniform(0.1, 0.22), 3), round(rng.uniform(-3, 3), 2)], [a, b], False])
         for a, b in pairs:
             cmds.append(["BSgate", [round(rng.uniform(0.3, 1.3), 3), round(rng.uniform(-2, 2), 2)], [a, b], False])
     for i in range(n):
@@ -934,7 +934,9 @@ APPLIES = {
 
 def _tol(rep, m):
     if rep == "fock":
-        return {"poly_quad_expectation": 6e-3, "quad_expectation": 4e-3, "mean_photon": 4e-3, "number_expectation": 6e-3}.get(m, 1.5e-3)
+        # Fock truncation (cutoff 7-14) against exact phase-space values; measured deviations are 5-10x below these
+        return {"poly_quad_expectation": 5e-3, "quad_expectation": 8e-3, "mean_photon": 2e-2, "number_expectation": 2e-2, "dm": 6e-3,
+                "reduced_dm": 6e-3, "wigner": 3e-3, "x_quad_values": 6e-3, "p_quad_values": 6e-3}.get(m, 5e-4)
     if m in ("x_quad_values", "p_quad_values"):
         return 1e-5
     if m in ("number_expectation",):
@@ -1004,8 +1006,8 @@ def eval_gauss_query(spec, rep, q, cutoff, cache=None):
             return None if abs(want - 1) < 1e-6 else ("gauss.is_pure:wrong", "is_pure is True but purity computed from cov is %.9g" % want)
         return None if _close(got, want, 1e-7) else ("bosonic.purity:wrong", "purity() = %s, from covariance %.9g" % (got, want))
     got_a = np.asarray(got)
-    if rep == "gaussian" and m in ("dm", "reduced_dm"):
-        # the Gaussian class normalises the truncated matrix (normalize=True); compare normalised
+    if rep == "gaussian" and m in ("dm", "reduced_dm") and st.is_pure:
+        # for pure states the Gaussian class normalises the truncated state vector; compare normalised
         k = np.asarray(want).ndim // 2
         tr = np.einsum(np.asarray(want), [i // 2 for i in range(2 * k)]).real
         want = np.asarray(want) / tr
@@ -1014,6 +1016,11 @@ def eval_gauss_query(spec, rep, q, cutoff, cache=None):
         if rep == "gaussian" and m in ("dm", "reduced_dm") and got_a.ndim == 2 and got_a.size == np.asarray(want).size:
             k = np.asarray(want).ndim // 2
             alt = got_a.reshape([cutoff] * (2 * k)).transpose([x for i in range(k) for x in (i, k + i)])
+            if "modes" in q and len(q["modes"]) < n:
+                idx = list(q["modes"]) + [x + n for x in q["modes"]]
+                if abs(np.linalg.det(cov[np.ix_(idx, idx)]) - (hb / 2) ** (2 * k)) > 1e-6:
+                    return ("gauss.reduced_dm:global-pure-flag-on-mixed-reduction", "Gaussian reduced_dm(%s) of a globally pure state whose reduction to those modes is mixed "
+                            "is computed with the pure-state formula (and returned as a %s matrix)" % (q["modes"], got_a.shape))
             if _close(alt, want, 1e-4):
                 return ("gauss.%s:pure-multimode-matrix-shape" % m, "Gaussian %s(%s) of a pure state has shape %s (matrix over flattened modes); the Fock and bosonic "
                         "representations and mixed Gaussian states return the %d-axis tensor [c]*%d" % (m, _qargs(q), got_a.shape, 2 * k, 2 * k))
@@ -1108,7 +1115,7 @@ def _eval_backend_state(eng, st, rep, n, modes, mu, cov, cutoff):
                     "%d-axis density matrix; its methods raise (%s)" % (modes, 2 * k, type(e).__name__))
         return ("fockbackend.state:unusable:" + type(e).__name__, "fock backend.state(modes=%s): methods of the returned state raise %r" % (modes, e))
     want = twq.density_matrix(want_mu, want_cov, hbar=float(sf.hbar), normalize=False, cutoff=cutoff)
-    if got.shape == want.shape and _close(got, want, 1.5e-3):
+    if got.shape == want.shape and _close(got, want, 6e-3):
         return None
     return ("fockbackend.state:wrong-modes" + ("" if modes == sorted(modes) else ":unsorted"),
             "fock backend.state(modes=%s).dm() is not the reduced density matrix of those modes in that order" % modes)
@@ -1354,9 +1361,31 @@ def call_fock_query(st, q, D):
     return call_query(st, "fock", q, D)
 
 
+def gen_ket_spec(rng, n, D):
+    """a random pure state with at most D-4 photons in total, handed to BaseFockState directly"""
+    maxtot = max(1, D - 4)
+    re, im = [], []
+    for nn in itertools.product(range(D), repeat=n):
+        if sum(nn) <= maxtot and rng.random() < 0.7:
+            re.append(round(rng.uniform(-1, 1), 3))
+            im.append(round(rng.uniform(-1, 1), 3))
+        else:
+            re.append(0.0)
+            im.append(0.0)
+    if not any(re):
+        re[0] = 1.0
+    return {"n": n, "ket": {"re": re, "im": im}, "cmds": []}
+
+
 def build_fock_state(spec, D, variant):
-    """variant: 'native' (what the backend returns), 'mixed-twin' (same state, density-matrix representation)"""
-    eng, st = run_spec(spec, "fock", D)
+    """variant: 'native' (what the backend returns / the ket as given), 'mixed-twin' (same state, density-matrix representation)"""
+    if "ket" in spec:
+        n = spec["n"]
+        ket = (np.array(spec["ket"]["re"]) + 1j * np.array(spec["ket"]["im"])).reshape([D] * n)
+        ket = ket / np.linalg.norm(ket)
+        eng, st = None, BaseFockState(ket, n, True, D)
+    else:
+        eng, st = run_spec(spec, "fock", D)
     if variant == "mixed-twin":
         st = BaseFockState(np.array(st.dm()), spec["n"], False, D)
     return eng, st
@@ -1457,7 +1486,12 @@ def search_fock_family(ctx):
         spec, D, lossy = gen_fock_spec(rng, n)
         if n == 3:
             D = min(D, 6)
+        if ci % 2 == 1:
+            D = {1: 8, 2: 6, 3: 5}[n]
+            spec, lossy = gen_ket_spec(rng, n, D), False
         qs = gen_fock_queries(rng, n, D)
+        if "ket" in spec:
+            qs = [q for q in qs if q["m"] != "backend_state"]
         cache = {}
         variants = ["native"] + ([] if lossy else ["mixed-twin"])
         for variant in variants:
